@@ -177,7 +177,6 @@ func (h *killedHandler) handleRestart() {
 	} else {
 		h.ctx.restarting = nil
 		atomic.StoreInt32(&h.ctx.state, running)
-		h.ctx.tell(true, h.ctx.ref, new(vivid.OnLaunch))
 		h.ctx.mailbox.Resume()
 
 		// 通知事件流
@@ -190,5 +189,9 @@ func (h *killedHandler) handleRestart() {
 			ActorRef: h.ctx.ref,
 			Type:     reflect.TypeOf(h.ctx.actor),
 		})
+
+		// OnLaunch 必须是新一轮生命周期收到的第一条消息：重启期间到达的系统消息（例如外部的 Kill）已排在系统队列中，
+		// 经由邮箱投递的 OnLaunch 会排在它们之后，因此在当前（该 Actor 自己的）处理协程中直接派发
+		h.ctx.HandleEnvelop(mailbox.NewEnvelop(true, h.ctx.ref, h.ctx.ref, new(vivid.OnLaunch)))
 	}
 }
